@@ -611,10 +611,7 @@ func storeKeyForm(w *load.World, c *core.Collector) {
 		walk(v, 0)
 		return found
 	}
-	isStore := func(m ssa.Value) bool {
-		p, _ := ssax.Path(m)
-		return strings.Contains(p, "shardStore")
-	}
+	isStore := isShardRegistry
 	for _, f := range clusterFns(w) {
 		for _, b := range f.Blocks {
 			for _, in := range b.Instrs {
